@@ -65,6 +65,8 @@ def parseItem (it : String) : Option RItem :=
   | 'x' :: 'o' :: rest => (String.ofList rest).toNat?.map .over
   | 'x' :: 't' :: rest => (String.ofList rest).toNat?.map .trunc
   | 'w' :: _ => some .wait
+  | ['P'] => some .wait     -- the panel stops reading its socket
+  | ['R'] => some .wait     -- … reads again
   | _ => none
 
 def parseHist (h : String) : Option (List RItem) :=
@@ -170,6 +172,8 @@ structure RObs where
   tj : List Nat := []
   sv : List Nat := []
   tn : Int := -1
+  tg : String := "-"
+  tf : String := "-"
   av : List (Nat × Nat) := []
   tlast : Nat := 0
   dataRaces : Nat := 0
@@ -188,7 +192,7 @@ def parseObs (impl : String) : Option RObs := do
   let g (k : String) : List Nat := hexBytes ((kvGet kv k).getD "-")
   pure { initOk := true, tconn := kvNat kv "tconn" 0, inv, acks := kvNat kv "acks" 0, fb := kvNat kv "fb" 0,
          model := g "model", serial := g "serial", name := g "name", tj := g "tj", sv := g "sv",
-         tn := ((kvGet kv "tn").bind parseInt).getD (-1), av, tlast := kvNat kv "tlast" 0,
+         tn := ((kvGet kv "tn").bind parseInt).getD (-1), tg := (kvGet kv "tg").getD "-", tf := (kvGet kv "tf").getD "-", av, tlast := kvNat kv "tlast" 0,
          dataRaces := kvNat kv "datarace" 0, bindRace := kvNat kv "bindrace" 0 == 1 }
 
 def isPrefixOf {α} [BEq α] : List α → List α → Bool
@@ -202,7 +206,8 @@ def agrees (b : Bindings) (initv : String) (items : List RItem) (fb : Bool) (o :
   let all := (initMsgs initv).map (·.1) ++ h
   let st := finalState {} all
   let inv := dispatch b h
-  let stateOk := o.model = st.model ∧ o.serial = st.serial ∧ o.name = st.name ∧ o.tj = st.topoJSON ∧ o.sv = st.topoSVG
+  -- model: the topology object is a fresh parse of `topoSrc` (= the stored JSON)
+  let stateOk := o.tg = o.tf ∧ o.tj = st.topoSrc ∧ o.model = st.model ∧ o.serial = st.serial ∧ o.name = st.name ∧ o.tj = st.topoJSON ∧ o.sv = st.topoSVG
     ∧ (o.av.all (fun (k, v) => lookupAvail st k = some v)) ∧ (st.avail.all (fun (k, _) => (o.av.find? (·.1 = k)).isSome))
   -- a broken frame shuts the client down: messages queued right before it may be dropped (a prefix is dispatched)
   let endsBroken := items.any (fun i => match i with | .trunc _ => true | .over len => strict ∨ len < Gen.gorwpFrameLimit | _ => false)
@@ -217,7 +222,7 @@ def step (cmd : String) (args : List String) (impl : String) : String :=
   let mode := (kvGet kv "mode").getD "bin"
   let initv := (kvGet kv "init").getD "full"
   let b := parseBind ((kvGet kv "bind").getD "-")
-  let fb := kvNat kv "fb" 0 == 1
+  let fb := kvNat kv "fb" 0 ≥ 1
   let race := kvNat kv "race" 0
   match parseHist ((kvGet kv "hist").getD "-") with
   | none => "ERR bad-history"
@@ -238,7 +243,7 @@ def step (cmd : String) (args : List String) (impl : String) : String :=
           bind := toSBindings b, feedback := fb, hist := specItems items }
       let so : Spec.Gorwp.Obs :=
         { initOk := o.initOk, tconn := o.tconn, inv := o.inv.map toSInv, acks := o.acks, model := o.model, serial := o.serial,
-          name := o.name, tj := o.tj, sv := o.sv, tn := o.tn, av := o.av, tlast := o.tlast, dataRaces := o.dataRaces, bindRace := o.bindRace }
+          name := o.name, tj := o.tj, sv := o.sv, tn := o.tn, tg := o.tg, tf := o.tf, av := o.av, tlast := o.tlast, dataRaces := o.dataRaces, bindRace := o.bindRace }
       let hs := match Spec.Gorwp.check sc so with | none => "H1" | some c => s!"H0:{c}"
       if !o.initOk then
         -- model: Connect fails iff the state after the initial answers is not initialised
